@@ -27,6 +27,7 @@ def scan_project(quick, thorough, ps):
 LOC = {"pkg": "jerr", "fn": "VerifH_LocationSpec", "quick": {"N": 4, "MIN": 0}, "thorough": {"N": 6, "MIN": 0}}
 LOC_LONG = {"pkg": "jerr", "fn": "VerifH_LocationLong", "quick": {}, "thorough": {}}
 TRACE1 = {"pkg": "jerr", "fn": "VerifH_ErrorTrace", "quick": {"N": 4}, "thorough": {"N": 6}}
+TRACE3 = {"pkg": "scanner", "fn": "VerifH_IncludeTraceTree", "quick": {}, "thorough": {}}
 TRACE2 = {"pkg": "scanner", "fn": "VerifH_IncludeTrace", "quick": {"K": 5, "F": 2}, "thorough": {"K": 6, "F": 3}}
 STACKINV = {"pkg": "scanner", "fn": "VerifH_StackInvariant", "quick": {}, "thorough": {}}
 CTX = {"pkg": "core", "fn": "VerifH_ContextResolution", "quick": {"K": 4}, "thorough": {"K": 6},
@@ -93,7 +94,7 @@ CHECKS = {
  },
  "C02": {
   "title": "Diagnostics are well located",
-  "harnesses": [LOC, LOC_LONG, TRACE1, TRACE2, {"pkg": "jerr", "fn": "VerifH_LocationIndependent", "quick": {"N": 2}, "thorough": {"N": 3}},
+  "harnesses": [LOC, LOC_LONG, TRACE1, TRACE2, TRACE3, {"pkg": "jerr", "fn": "VerifH_LocationIndependent", "quick": {"N": 2}, "thorough": {"N": 3}},
    next_total(3, 5, [0, 1, 5, 9, 12, 15]),
    scan_project({"N": 2, "M": 1}, {"N": 3, "M": 2}, [0, 1, 2, 7, 14, 16]),
    doc("VerifH_PipelineTotal", {"K": 2, "MENU": 0}, {"K": 3, "MENU": 0}, budget_violation=True),
